@@ -1,8 +1,8 @@
 (* C05 - model of the polynomial-quotient extension field Extension<BaseField> (src/kernel/field/extension.h) over a prime
    base field, written after the code: every operation is the Poly1Dom operation (coq/C09 Model: padd/psub/pmul/pmod are
    Poly1Dom add/sub/mul and the remainder of divmod, results normalised as setdegree does) followed by `modin(., _irred)`
-   exactly where extension.h calls it.  Elements are canonical coefficient lists (low degree first).  inv/div (invmod, an
-   extended gcd) are not modelled.  No proofs in this file. *)
+   exactly where extension.h calls it.  Elements are canonical coefficient lists (low degree first).  inv/div/invin/divin go
+   through Poly1Dom::invmod (givpoly1gcd.inl:131, a monic-normalised extended Euclid), modelled below.  No proofs in this file. *)
 From Coq Require Import ZArith List Bool.
 From C09 Require Model.
 From C05 Require Import Model.
@@ -29,6 +29,42 @@ Section Ext.
   Definition e_axmy (a b c : list Z) := psub (e_mul a b) c.            (* subin(mul(r,a,b), c) *)
   Definition e_axmyin (r a b : list Z) := pneg (e_maxpyin r a b).      (* maxpyin(r,a,b); negin(r) *)
 
+  (* Poly1Dom::div(R, A, scalar): every coefficient times the inverse of the scalar *)
+  Definition pdivc (a : list Z) (c : Z) : list Z := C09.Model.pscale p (C09.Model.inv p c) a.
+  (* the loop of invmod: while (!isZero(G)) { divmod(Q,R1,F,G); r1 = leadcoef(R1) (one when zero); F = G; G = R1/r1;
+     TMP2 = S0 - Q*S1; S0 = S1; S1 = TMP2/r1 }  -> (S0, F) at exit; None = fuel exhausted (never for fuel > deg G) *)
+  Fixpoint invmod_loop (fuel : nat) (Fp G S0 S1 : list Z) : option (list Z * list Z) :=
+    match G with
+    | [] => Some (S0, Fp)
+    | _ => match fuel with
+           | O => None
+           | S f =>
+             let Q := C09.Model.pdiv p Fp G in
+             let R1 := C09.Model.pmod p Fp G in
+             let l := C09.Model.lc R1 in
+             let r1 := if l mod p =? 0 then 1 else l in
+             invmod_loop f G (pdivc R1 r1) S1 (pdivc (psub S0 (pmul Q S1)) r1)
+           end
+    end.
+  (* invmod(S0, A, B): S0 with S0*A = gcd(A,B) (monic) modulo B, and that gcd *)
+  Definition invmod_pair (A B : list Z) : option (list Z * list Z) :=
+    if (C09.Model.deg A <=? 0) || (C09.Model.deg B <=? 0) then
+      Some (C09.Model.red p [C09.Model.inv p (C09.Model.lc A)], C09.Model.pone)
+    else
+      let r0 := C09.Model.lc A in
+      let r1 := C09.Model.lc B in
+      invmod_loop (S (length B)) (pdivc A r0) (pdivc B r1) (C09.Model.red p [C09.Model.inv p r0]) [].
+  (* Extension::inv(r, a) = _pD.invmod(r, a, _irred); the result is the inverse when the gcd is 1 (always, for an irreducible
+     modulus and a <> 0): the model answers None otherwise *)
+  Definition e_inv (a : list Z) : option (list Z) :=
+    match invmod_pair a F with
+    | Some (s, g) => if (C09.Model.deg a <=? 0) then (if C09.Model.deg a =? 0 then Some s else None)
+                     else match g with [1] => Some s | _ => None end
+    | None => None
+    end.
+  Definition e_div (a b : list Z) : option (list Z) :=        (* inv(ib, b); mul(r, a, ib) *)
+    match e_inv b with Some ib => Some (e_mul a ib) | None => None end.
+
   (* 0 add 1 sub 2 mul 3 neg 4 axpy 5 axpyin 6 maxpy 7 maxpyin 8 axmy 9 axmyin *)
   Definition ext_op (code : Z) (a b c : list Z) : list Z :=
     match code with
@@ -39,6 +75,13 @@ Section Ext.
 End Ext.
 
 (* Z-level entry point: elements and the modulus as p-adic numbers *)
+Definition ext_invZ (p k f dodiv a b : Z) : Z :=     (* dodiv = 0: inv a;  otherwise a / b;  -1 when the model has no answer *)
+  let el := fun n => C09.Model.red p (digits p (Z.to_nat k) n) in
+  let F := C09.Model.red p (digits p (S (Z.to_nat k)) f) in
+  match (if dodiv =? 0 then e_inv p F (el a) else e_div p F (el a) (el b)) with
+  | Some r => evalp p r
+  | None => -1
+  end.
 Definition ext_opZ (p k f code a b c : Z) : Z :=
   let el := fun n => C09.Model.red p (digits p (Z.to_nat k) n) in
   evalp p (ext_op p (C09.Model.red p (digits p (S (Z.to_nat k)) f)) code (el a) (el b) (el c)).
